@@ -21,6 +21,7 @@ import (
 	"errors"
 	"flag"
 	"fmt"
+	"io"
 	"os"
 	"os/exec"
 	"os/signal"
@@ -61,7 +62,8 @@ type Case struct {
 	TabNil bool    `json:"table_nil,omitempty"` // Event.Formatted == nil
 	WNil   bool    `json:"writer_nil,omitempty"`
 	ENil   bool    `json:"event_nil,omitempty"`
-	Beh    string  `json:"beh,omitempty"` // ok fail0 failhalf shorthalf short0 over
+	Beh    string  `json:"beh,omitempty"` // ok fail0 failhalf failfull shorthalf short0 over
+	Err    string  `json:"err,omitempty"` // which error VALUE a failing writer returns (see writerErrors); "" = a private error
 	// c
 	Calls []Call `json:"calls,omitempty"`
 	// f: 0 /dev/null 1 stdout 2 stderr 3 file 4 failing file 5 no directory 6/7 stdout/stderr on /dev/full 8/9 stdout/stderr closed
@@ -130,7 +132,38 @@ type wcall struct {
 }
 type hwriter struct {
 	beh   string
+	err   error
 	calls []wcall
+}
+
+type privateErr struct{ s string }
+
+func (e *privateErr) Error() string { return e.s }
+
+// the error VALUES a failing writer / a done context hands back: the sentinel errors code could plausibly special-case, each also
+// wrapped with %w, and a private error.  Whatever the value, C13 wants a non-nil error from the sink.
+var writerErrors = func() map[string]error {
+	base := map[string]error{
+		"eof": io.EOF, "unexpectedeof": io.ErrUnexpectedEOF, "shortwrite": io.ErrShortWrite, "closedpipe": io.ErrClosedPipe, "osclosed": os.ErrClosed,
+		"canceled": context.Canceled, "deadline": context.DeadlineExceeded, "enospc": syscall.ENOSPC, "eagain": syscall.EAGAIN, "eintr": syscall.EINTR,
+		"epipe": syscall.EPIPE, "osdeadline": os.ErrDeadlineExceeded, "nomoreprogress": io.ErrNoProgress,
+	}
+	m := map[string]error{"private": &privateErr{"write failed"}}
+	for k, v := range base {
+		m[k] = v
+		m["wrap:"+k] = fmt.Errorf("harness writer: %w", v)
+		m["patherror:"+k] = &os.PathError{Op: "write", Path: "/harness", Err: v}
+	}
+	return m
+}()
+
+func errNames() []string {
+	var ns []string
+	for k := range writerErrors {
+		ns = append(ns, k)
+	}
+	sort.Strings(ns)
+	return ns
 }
 
 func (w *hwriter) Write(b []byte) (int, error) {
@@ -140,9 +173,11 @@ func (w *hwriter) Write(b []byte) (int, error) {
 	case "ok":
 		n = len(b)
 	case "fail0":
-		n, err = 0, errors.New("write failed")
+		n, err = 0, w.err
 	case "failhalf":
-		n, err = len(b)/2, errors.New("write failed")
+		n, err = len(b)/2, w.err
+	case "failfull":
+		n, err = len(b), w.err
 	case "shorthalf":
 		n = len(b) / 2
 	case "short0":
@@ -167,7 +202,10 @@ func classify(out *el.Event, err error, panicked bool) int {
 }
 
 func execW(c Case) (res int, calls []wcall) {
-	hw := &hwriter{beh: c.Beh}
+	hw := &hwriter{beh: c.Beh, err: writerErrors["private"]}
+	if e, ok := writerErrors[c.Err]; ok {
+		hw.err = e
+	}
 	s := &writer.Sink{Format: fmtName[c.Fmt]}
 	if !c.WNil {
 		s.Writer = hw
@@ -191,7 +229,7 @@ func execW(c Case) (res int, calls []wcall) {
 }
 
 func behLit(b string) string {
-	return map[string]string{"ok": "WOk", "fail0": "WFail0", "failhalf": "WFailHalf", "shorthalf": "WShortHalf", "short0": "WShort0", "over": "WOver"}[b]
+	return map[string]string{"ok": "WOk", "fail0": "WFail0", "failhalf": "WFailHalf", "failfull": "WFailFull", "shorthalf": "WShortHalf", "short0": "WShort0", "over": "WOver"}[b]
 }
 func callsLit(cs []wcall) string {
 	s := make([]string, len(cs))
@@ -506,6 +544,12 @@ func execH(c Case) hobs {
 	case "done":
 		ctx, cancel = context.WithCancel(ctx)
 		cancel()
+	case "done-eof", "done-private", "done-wrapped-deadline":
+		// a context implementation that is done and whose Err() is not one of the two context sentinels
+		done := make(chan struct{})
+		close(done)
+		ctx = &customCtx{Context: ctx, done: done, err: map[string]error{"done-eof": io.EOF, "done-private": &privateErr{"ctx gone"},
+			"done-wrapped-deadline": fmt.Errorf("budget: %w", context.DeadlineExceeded)}[c.Ctx]}
 	case "cancel":
 		ctx, cancel = context.WithCancel(ctx)
 		tm := time.AfterFunc(time.Duration(c.CtxAt)*time.Millisecond, cancel)
@@ -533,7 +577,7 @@ func execH(c Case) hobs {
 	switch {
 	case perr == nil && out == nil:
 		o.Arm = 0
-	case perr != nil && out == nil && (errors.Is(perr, context.Canceled) || errors.Is(perr, context.DeadlineExceeded)) && ctx.Err() != nil && errors.Is(perr, ctx.Err()):
+	case perr != nil && out == nil && ctx.Err() != nil && errors.Is(perr, ctx.Err()):
 		o.Arm = 1
 	case perr != nil && out == nil && strings.Contains(perr.Error(), "chan write timeout"):
 		o.Arm = 2
@@ -551,6 +595,16 @@ func execH(c Case) hobs {
 	}
 	return o
 }
+
+type customCtx struct {
+	context.Context
+	done chan struct{}
+	err  error
+}
+
+func (c *customCtx) Done() <-chan struct{} { return c.done }
+func (c *customCtx) Err() error            { return c.err }
+
 func optZ(v int) string {
 	if v < 0 {
 		return "None"
@@ -569,7 +623,7 @@ func hParams(c Case) (chanAt, ctxAt int) {
 	switch c.Ctx {
 	case "none":
 		ctxAt = -1
-	case "done":
+	case "done", "done-eof", "done-private", "done-wrapped-deadline":
 		ctxAt = 0
 	default:
 		ctxAt = c.CtxAt
@@ -982,7 +1036,7 @@ func (e *emitter) run(c Case) {
 	switch c.Kind {
 	case "w":
 		res, calls := execW(c)
-		e.record(c, litW(c, res, calls), fmt.Sprintf("w:%s:res%d:calls%d", c.Beh, res, len(calls)), len(calls) > 0)
+		e.record(c, litW(c, res, calls), fmt.Sprintf("w:%s:res%d:calls%d", c.Beh, res, len(calls))+map[bool]string{true: ":error-values", false: ""}[c.Err != ""], len(calls) > 0)
 	case "c":
 		results, stream, order, overlap := execC(c, e.scratch)
 		dest := "c"
@@ -1046,7 +1100,7 @@ func valueVariants(f int) [][]int {
 }
 
 func genW(e *emitter) {
-	behs := []string{"ok", "fail0", "failhalf", "shorthalf", "short0", "over"}
+	behs := []string{"ok", "fail0", "failhalf", "failfull", "shorthalf", "short0", "over"}
 	var tables [][]Entry
 	var rec func(f int, cur []Entry)
 	rec = func(f int, cur []Entry) {
@@ -1073,6 +1127,16 @@ func genW(e *emitter) {
 		e.run(Case{Kind: "w", Gen: "special", Fmt: fm, Table: full, Beh: "ok", ENil: true})
 		e.run(Case{Kind: "w", Gen: "special", Fmt: fm, TabNil: true, Beh: "ok"})
 		e.run(Case{Kind: "w", Gen: "special", Fmt: fm, Table: full, Beh: "ok", WNil: true, ENil: true})
+	}
+	// the identity of the writer's error: every error value x {nothing, part, all of the bytes written before it} x format unset / named
+	for _, name := range errNames() {
+		for _, b := range []string{"fail0", "failhalf", "failfull"} {
+			for _, t := range [][]Entry{{{1, []int{11, 12, 13, 10}}, {2, []int{21, 22, 23, 24, 25}}}, {{1, []int{11}}, {2, []int{21}}}} {
+				for _, fm := range []int{0, 2} {
+					e.run(Case{Kind: "w", Gen: "error-values", Fmt: fm, Table: t, Beh: b, Err: name})
+				}
+			}
+		}
 	}
 	// a long value (one Write call whatever the size)
 	long := make([]int, 5000)
@@ -1147,7 +1211,7 @@ func genH(e *emitter, repeat int) {
 		k  string
 		at int
 	}
-	ctxs := []cx{{"none", -1}, {"done", 0}, {"cancel", short}, {"deadline", short}, {"cancel", long}, {"deadline", long}}
+	ctxs := []cx{{"none", -1}, {"done", 0}, {"done-eof", 0}, {"done-private", 0}, {"done-wrapped-deadline", 0}, {"cancel", short}, {"deadline", short}, {"cancel", long}, {"deadline", long}}
 	var cases []Case
 	for rep := 0; rep < repeat; rep++ {
 		for _, c := range chans {
